@@ -1390,6 +1390,14 @@ impl Runner {
                             Err(_) => "panic".into(),
                         };
                         self.emit(k, format!("nfsweep {}", txt));
+                        {
+                            let snap = dev.verif_snapshot();
+                            let dirty = snap.l2_slices.iter().filter(|s| s.dirty).count()
+                                + snap.rb_slices.iter().filter(|s| s.dirty).count()
+                                + snap.l1_dirty_blocks.len()
+                                + snap.rt_dirty_blocks.len();
+                            self.emit(k, format!("nfdirty {}", dirty));
+                        }
                         // ... and what the live device reads at the same moment
                         let live = catch_unwind(AssertUnwindSafe(|| block_on(sweep(&dev, self.case.size, 1 << params.get_bs_bits()))));
                         self.emit(k, format!("nflive {}", match live { Ok(Ok(s)) => s, Ok(Err(_)) => "err".into(), Err(_) => "panic".into() }));
@@ -1430,6 +1438,20 @@ impl Runner {
             Ok((live, flok)) => {
                 self.emit(k, format!("live {}", live.unwrap_or_else(|_| "err".into())));
                 self.emit(k, format!("res {}", if flok { "ok" } else { "err" }));
+                if flok && !case.rdonly {
+                    // a successful flush_meta() leaves nothing un-synced behind: modifying requests
+                    // issued after the last successful fsync
+                    let st = self.files[0].0.borrow();
+                    let last_sync = st.log.iter().filter(|r| r.kind == crate::sim::Kind::Sync && !r.failed).map(|r| r.id).max();
+                    let tail = st
+                        .log
+                        .iter()
+                        .filter(|r| (r.kind == crate::sim::Kind::Write || r.kind == crate::sim::Kind::Punch) && !r.failed)
+                        .filter(|r| last_sync.map(|s| r.id > s).unwrap_or(true))
+                        .count();
+                    drop(st);
+                    self.emit(k, format!("tail {}", tail));
+                }
                 if flok {
                     self.dump_file(k);
                     self.reopen_sweep(k);
@@ -1509,6 +1531,31 @@ pub fn crash_lines(files: &[SimFile]) -> Vec<String> {
         }
     }
     v
+}
+
+/// request log of a CONCURRENT run in an order the sequential crash semantics can read: modifying requests at
+/// their completion, fsyncs at their issue (an fsync covers exactly the requests that had completed when it
+/// was issued). Every crash state built from this order is a crash state of the concurrent run (requests in
+/// flight at the crash are simply absent, which is one of their outcomes).
+pub fn conc_crash_lines(files: &[SimFile]) -> Vec<String> {
+    let st = files[0].0.borrow();
+    let mut ev: Vec<(usize, String)> = Vec::new();
+    for r in &st.log {
+        if r.failed {
+            continue;
+        }
+        match (r.kind, r.done_seq) {
+            (Kind::Write, Some(d)) => ev.push((
+                d,
+                format!("W 0 {} {} {}", r.off, r.len, hex(r.payload.as_ref().map(|p| &p[..]).unwrap_or(&[]))),
+            )),
+            (Kind::Punch, Some(d)) => ev.push((d, format!("Z 0 {} {}", r.off, r.len))),
+            (Kind::Sync, Some(_)) => ev.push((r.issue_seq, "S 0".to_string())),
+            _ => {}
+        }
+    }
+    ev.sort_by_key(|e| e.0);
+    ev.into_iter().map(|e| e.1).collect()
 }
 
 pub fn has_modifying(files: &[SimFile], idx: usize) -> bool {
